@@ -51,8 +51,10 @@ def st_async_case(draw: st.DrawFn, tier: str) -> dict:
         "frag_to_sut": frag_to_sut,
         "frag_to_peer": frag_to_peer,
         "delays": draw(DELAYS),
+        "n_writers": draw(st.sampled_from([1, 1, 2, 3])),
         "mem_script": {
             "send_yield": draw(st.lists(st.integers(0, 3), min_size=1, max_size=4)),
+            "send_split": draw(st.sampled_from([[0], [0], [0, 700], [64], [1000, 0, 5]])),
             "recv_max": draw(st.one_of(st.just([1 << 30]), st.lists(st.sampled_from([1, 3, 50, 1000, 1 << 30]), min_size=1, max_size=4))),
         },
     }
@@ -60,7 +62,9 @@ def st_async_case(draw: st.DrawFn, tier: str) -> dict:
 
 async def _session(case: dict) -> dict:
     backend, mem, peer, wire = tlsharness.new_session(case)
-    sut_payloads = [tlspeer.payload("sut", i, n) for i, n in enumerate(case["sut_writes"])]
+    # each SUT write is one framed message (4-byte length + payload) so that the peer's stream can be parsed back into
+    # messages when several writer tasks send concurrently
+    sut_payloads = [len(p).to_bytes(4, "big") + p for p in (tlspeer.payload("sut", i, n) for i, n in enumerate(case["sut_writes"]))]
     peer_payloads = [tlspeer.payload("peer", i, n) for i, n in enumerate(case["peer_writes"])]
     expected_from_peer = b"".join(peer_payloads)
     expected_from_sut = b"".join(sut_payloads)
@@ -71,9 +75,13 @@ async def _session(case: dict) -> dict:
         tls = await tlsharness.wrap_sut(case, mem)
         result["handshake_cipher_to_sut"] = wire.delivered_to_sut
 
-        async def writer() -> None:
+        nw = max(1, int(case.get("n_writers", 1)))
+
+        async def writer(w: int = 0) -> None:
             gaps = case["sut_write_gaps"]
             for i, data in enumerate(sut_payloads):
+                if i % nw != w:
+                    continue
                 g = gaps[i % len(gaps)]
                 if g:
                     await asyncio.sleep(g)
@@ -120,7 +128,7 @@ async def _session(case: dict) -> dict:
                 peer.write(data)
                 wire.kick()
 
-        tasks = [asyncio.create_task(writer()), asyncio.create_task(reader()), asyncio.create_task(peer_writer())]
+        tasks = [asyncio.create_task(writer(w)) for w in range(nw)] + [asyncio.create_task(reader()), asyncio.create_task(peer_writer())]
         try:
             await asyncio.gather(*tasks)
         except BaseException:
@@ -151,8 +159,23 @@ async def _session(case: dict) -> dict:
         deliveries_to_sut=wire.deliveries_to_sut,
         cipher_to_sut_len=len(wire.all_from_peer),
         sut_payloads=sut_payloads,
+        n_writers=nw,
     )
     return result
+
+
+def _parse_messages(stream: bytes) -> list[bytes] | None:
+    out = []
+    pos = 0
+    while pos < len(stream):
+        if pos + 4 > len(stream):
+            return None
+        n = int.from_bytes(stream[pos : pos + 4], "big")
+        if pos + 4 + n > len(stream):
+            return None
+        out.append(stream[pos : pos + 4 + n])
+        pos += 4 + n
+    return out
 
 
 def run_async_case(case: dict) -> Outcome:
@@ -169,16 +192,32 @@ def run_async_case(case: dict) -> Outcome:
             f"{_first_diff(r['received'], r['expected_from_peer'])}",
             direction="peer->sut",
         )
-    if r["peer_plain"] != r["expected_from_sut"]:
-        raise Violation(
-            "data-mismatch",
-            f"peer read {len(r['peer_plain'])} bytes, SUT wrote {len(r['expected_from_sut'])}; first diff at "
-            f"{_first_diff(r['peer_plain'], r['expected_from_sut'])}",
-            direction="sut->peer",
-        )
+    if r["n_writers"] == 1:
+        if r["peer_plain"] != r["expected_from_sut"]:
+            raise Violation(
+                "data-mismatch",
+                f"peer read {len(r['peer_plain'])} bytes, SUT wrote {len(r['expected_from_sut'])}; first diff at "
+                f"{_first_diff(r['peer_plain'], r['expected_from_sut'])}",
+                direction="sut->peer",
+            )
+    else:
+        # several writer tasks: each send_all is one framed message; the peer must see every message intact exactly once,
+        # and each writer's messages in its own order
+        msgs = _parse_messages(r["peer_plain"])
+        if msgs is None or sorted(msgs) != sorted(r["sut_payloads"]):
+            raise Violation(
+                "data-mismatch",
+                f"peer stream ({len(r['peer_plain'])} bytes) is not a sequence of exactly the {len(r['sut_payloads'])} messages written by {r['n_writers']} concurrent writers",
+                direction="sut->peer",
+            )
+        index = {m: i for i, m in enumerate(r["sut_payloads"])}
+        for w in range(r["n_writers"]):
+            mine = [index[m] for m in msgs if index[m] % r["n_writers"] == w]
+            if mine != sorted(mine):
+                raise Violation("data-mismatch", f"messages of writer {w} arrived out of order", direction="sut->peer")
     cipher = r["cipher_from_sut"]
     for p in r["sut_payloads"] + [b"localhost"[:0]]:
-        if len(p) >= 16 and p[:16] in cipher:
+        if len(p) >= 20 and p[4:20] in cipher:
             raise Violation("plaintext-on-wire", "application bytes reached the underlying transport unencrypted")
     if not r["closed"]:
         raise Violation("not-closed", "wrapped transport not closed after aclose()")
@@ -191,6 +230,8 @@ def run_async_case(case: dict) -> Outcome:
     split = r["deliveries_to_sut"] >= 2 and min(case["frag_to_sut"]) < 1000 and app_cipher > min(case["frag_to_sut"])
     if both:
         classes.append("full-duplex")
+    if r["n_writers"] > 1:
+        classes.append("concurrent-writers")
     if both and any(case.get("peer_after", [0])):
         classes.append("peer-waits-for-sut")
     if split:
@@ -360,7 +401,7 @@ CHECK = Check(
         "data and ciphertext to the SUT is fragmented below record size over >= 2 deliveries; distinct = sha1(case)"
     ),
     layers=[
-        Layer("async", st_async_case, run_async_case, {"quick": 250, "thorough": 1500}),
+        Layer("async", st_async_case, run_async_case, {"quick": 450, "thorough": 2000}),
         Layer("sync", st_sync_case, run_sync_case, {"quick": 150, "thorough": 1000}),
     ],
     assumptions=[
